@@ -77,6 +77,7 @@ type Addr struct {
 
 // World is one manager under test plus harness bookkeeping.
 type World struct {
+	Handles   []Handle // C05: objects obtained and used while unlocked
 	R         *rand.Rand
 	Dir       string
 	Path      string
@@ -249,6 +250,7 @@ func (w *World) open() error {
 
 // Restart closes manager and database and opens them again.
 func (w *World) Restart() error {
+	w.Handles = nil // objects of the manager being closed
 	w.M.Close()
 	if err := w.DB.Close(); err != nil {
 		return err
